@@ -249,6 +249,29 @@ Theorem c38_stats_table_checked :
 Proof. exact SerialStats.stats_table_checked. Qed.
 Print Assumptions c38_stats_table_checked.
 
+(* the decoder on shapes no encoder writes: a member whose name equals no
+   member name of the struct, even up to (ASCII) case, is skipped - value,
+   saved error and abort are those of the object without it.  (The other
+   rules - duplicates, null, wrong kinds, number ranges, saved vs aborting
+   errors - are compared with real json.Unmarshal by the djson suite.) *)
+Theorem c38_unknown_member_ignored :
+  forall (num F : Type) (int_of_num : num -> option Z) (flt_of_num : num -> option F) (fzero : F)
+         fs ms1 k j ms2,
+  (forall fd, In fd fs -> Common.SerialUtil.eqfold k (fd_json fd) = false) ->
+  unmarshal num F int_of_num flt_of_num fzero (TStruct fs) (JvObj (ms1 ++ (k, j) :: ms2)%list)
+  = unmarshal num F int_of_num flt_of_num fzero (TStruct fs) (JvObj (ms1 ++ ms2)%list).
+Proof. exact SerialStats.unknown_member_ignored. Qed.
+Print Assumptions c38_unknown_member_ignored.
+
+(* premises of c38_stats_roundtrip are satisfiable on a non-trivial value: a
+   TransportStats with ICERole controlled, BytesSent 2^64-1 *)
+Example c38_stats_roundtrip_nontrivial :
+  has_type Z (stats_fty TransportStats) SerialStats.transport1 /\
+  own_tag Z TransportStats SerialStats.transport1 /\
+  lossless Z c_fzero c_fis_zero (stats_fty TransportStats) SerialStats.transport1 /\
+  c_stats_roundtrip TransportStats SerialStats.transport1 = Ok (TransportStats, SerialStats.transport1).
+Proof. exact SerialStats.transport1_ok. Qed.
+
 (* ---- second tie to the source: the translated enum tables ----
    Gen/GoSerial.v is regenerated by tools/go2coq before every run of this
    check from the enum files themselves: every String() method and every
